@@ -96,6 +96,13 @@ def gen_cases(rng, tier):
                       "ER_dB": rng.choice([13.0, 30.0]), "P": 10 ** rng.uniform(-4, -1.5), "npol": rng.choice([1, 2]),
                       "pol": rng.choice(["x", "y"]), "r": 0.8, "Rl": 100.0, "bw": rng.choice([1.0, 1.2, 1.5]), "prop": "none",
                       "D": 0.0, "L": 1.0, "instant": None})
+    # the same direct link at very low received power with the default dark current (levels 0.5 uV apart by only a few nV)
+    for _ in range(3 if tier == "quick" else 20):
+        sps = rng.choice([8, 16])
+        cases.append({"kind": "chain", "bits": _bits(rng, "random", 48), "pattern": "random", "sps": sps, "R": rng.choice([1e9, 10e9]),
+                      "shape": rng.choice(["nrz", "gaussian"]), "Vpi": 3.5, "loss_dB": 3.0, "ER_dB": 30.0, "P": 10 ** rng.uniform(-9.3, -8.5),
+                      "npol": rng.choice([1, 2]), "pol": "x", "r": 0.7, "Rl": 50.0, "bw": 1.0, "prop": "none", "D": 0.0, "L": 1.0,
+                      "instant": None, "idark": "default", "libcmp": True})
     # every sampling instant for one NRZ case without filter influence is covered by the model tie (pre-filter waveform)
     for M in [2, 4, 8, 16]:
         for dec in ["soft", "hard"]:
@@ -138,9 +145,10 @@ def gen_cases(rng, tier):
     # weak received signals (-55 … -47 dBm launch) with the DEFAULT dark current: the pedestal i_dark*R_load sits in .noise and is
     # comparable to the swing; the packaged decisions must cope (they estimate the threshold from the received eye)
     for kind_, dec in (("ook", None), ("ook", None), ("ppm", "hard"), ("ppm", "hard"), ("ppm", "soft")):
-        P = 10 ** rng.uniform(-8.5, -7.7)
+        P = 10 ** rng.uniform(-9.3, -7.7)          # -63 … -47 dBm: eye openings down to a few nV on a 0.5 uV pedestal
         base = {"sps": rng.choice([8, 16]), "R": rng.choice([1e9, 10e9]), "shape": rng.choice(["nrz", "gaussian"]), "Vpi": 3.5,
-                "loss_dB": 1.0, "ER_dB": rng.choice([20.0, 30.0]), "P": P, "npol": rng.choice([1, 2]), "pol": "x", "r": 1.0, "Rl": 50.0,
+                "loss_dB": rng.choice([1.0, 3.0]), "ER_dB": rng.choice([20.0, 30.0]), "P": P, "npol": rng.choice([1, 2]), "pol": "x",
+                "r": rng.choice([0.7, 1.0]), "Rl": 50.0,
                 "bw": rng.choice([1.0, 1.5]), "prop": "none", "idark": "default", "seed": rng.getrandbits(31),
                 "cphase": rng.choice([0.0, np.pi / 2])}
         if kind_ == "ook":
@@ -257,12 +265,17 @@ def run_impl(case):
                     inst = gv.sps // 2
                     s = dev.SAMPLER(z, inst)
                 v0, v1 = _levels(case)
+                ped = 10e-9 * case["Rl"] if case.get("idark") == "default" else 0.0     # the default dark current sits on both levels
                 ys = np.array(s.signal.real, dtype=float) + (0 if s.noise is None else np.array(s.noise.real, dtype=float))
-                thr = (v0 + v1) / 2
+                thr = (v0 + v1) / 2 + ped
                 dec = [int(b) for b in ((ys > thr) if v1 > v0 else (ys < thr))]
-                lv = np.where(np.array(case["bits"]) == 1, v1, v0)
+                if case.get("libcmp"):                      # the library's own threshold comparison on the sampled container
+                    res["decoded_lib"] = [int(b) for b in ((s > thr) if v1 > v0 else (s < thr)).data]
+                lv = np.where(np.array(case["bits"]) == 1, v1, v0) + ped
                 res.update(status="ok", decoded=dec, v0=v0, v1=v1, n=len(z), pre=[float(t) for t in spy["pre"]],
-                           pre_noise_zero=bool(spy["pre_noise"] is None or not np.any(spy["pre_noise"])),
+                           pre_noise_zero=bool(spy["pre_noise"] is None or not np.any(spy["pre_noise"])
+                                               or (case.get("idark") == "default"      # only the constant dark-current pedestal
+                                                   and bool(np.all(np.abs(spy["pre_noise"] - 10e-9 * case["Rl"]) <= 1e-9 * 10e-9 * case["Rl"])))),
                            margin=float(np.max(np.abs(ys - lv)) / (abs(v1 - v0) / 2)), cls=type(z).__name__)
             elif case["kind"] == "dual":
                 # polarisation multiplexing: ONE two-polarisation CW carrier object feeds two modulators (pol x, then pol y)
@@ -390,6 +403,9 @@ def oracle(case, res):
         if res["decoded"] != case["bits"]:
             nerr = sum(a != b for a, b in zip(res["decoded"], case["bits"])) + abs(len(res["decoded"]) - len(case["bits"]))
             v.append((f"C03:chain:{case['shape']}", f"{nerr} bit errors after slot-centre sampling and mid-level threshold (margin {res['margin']:.3f}) {tag}"))
+        if "decoded_lib" in res and res["decoded_lib"] != case["bits"]:
+            nerr = sum(x != y for x, y in zip(res["decoded_lib"], case["bits"])) + abs(len(res["decoded_lib"]) - len(case["bits"]))
+            v.append(("C03:chain:library-threshold", f"{nerr} bit errors when the sampled signal is compared with the midway threshold through the library's `>` (margin {res['margin']:.3f}) {tag}"))
         if res["n"] != len(case["bits"]) * case["sps"] or res["cls"] != "electrical_signal":
             v.append(("C03:chain-shape", f"received {res['cls']} of length {res['n']}"))
         if not res["pre_noise_zero"]:
